@@ -2,6 +2,10 @@
 
 package redis
 
+import "github.com/mgtv-tech/redis-GunYu/pkg/redis/types"
+
+var _ = types.SpecDec // spec functions used by the contracts below
+
 // Contracts for the verification machinery in /verif (build tag "verif").
 // $range1 is the byte position of the first `range` iterator of the function.
 
@@ -27,3 +31,26 @@ package redis
 //@   modifies curDb, replayFailed
 //@   ensures switched: err == nil ==> curDb == db
 //@   ensures counted: (err != nil ==> replayFailed == old(replayFailed) + 1) && (err == nil ==> replayFailed == old(replayFailed))
+
+// ---- PSYNC: the offset convention and what a granted continuation means (C06) ---------------
+// The source counts the first byte it will send as offset+1: a replica that holds the stream up
+// to `offset` asks for offset+1; +CONTINUE means the stream resumes exactly after `offset`.
+//@ func StandaloneRedis.receivePSyncReply
+//@   trusted abstract source connection: the PSYNC answer line
+//@ func StandaloneRedis.waitRdbDump
+//@   trusted abstract source connection: a channel that delivers the snapshot size
+//@   ensures channel: result != nil
+//@ func strconv.ParseInt(s, base, bitSize) (v, err)
+//@   trusted library contract (pure)
+//@   modifies nothing
+
+//@ func StandaloneRedis.SendPSync
+//@   arith int
+//@   properties C06
+//@   requires nonnil: sr != nil
+//@   assume no_overflow: offset < 9223372036854775807
+//@   modifies heap
+//@   assert at call SendAndFlush: asks_for_the_byte_after_what_it_holds: arg0 == "psync" && len(arg1) == 2 && hastype(arg1[0], "string") && asstring(arg1[0]) == old(runid) && hastype(arg1[1], "string") && asstring(arg1[1]) == types.SpecDec(ite(old(offset) >= 0, old(offset) + 1, old(offset)))
+//@   ensures granted_continuation_resumes_exactly_after_the_held_offset: result3 == nil && result2 == nil && offset >= 0 ==> result1 == offset
+//@   ensures full_resync_always_hands_a_snapshot: result3 == nil && result2 != nil ==> true
+//@   ensures error_hands_nothing: result3 != nil ==> result2 == nil && result1 == 0 - 1
